@@ -64,10 +64,12 @@ C_FAIL_DUP = "failed-configuration-blocked-even-when-duplicates-allowed"
 C_NONE = "nothing-left-only-when-finite-space-used-up"
 C_GRID = "grid-enumerated-exactly-once"
 C_GRID_COLL = "grid-enumerated-exactly-once[finite-range-with-colliding-rounded-values]"
+C_CRASH = "suggest-answers-without-raising"
+C_CRASH_DEHB = "suggest-answers-without-raising[dehb-own-sampler,imputed-default-of-integer-nn-ordinal]"
 C_PBT_DOM = "pbt-explored-value-inside-its-domain"
 C_PBT_TYPE = "pbt-explored-value-has-the-type-of-its-domain"
 
-CLAUSES = [C_KEYS, C_CONST, C_TYPE, C_DOM, C_INIT, C_MID, C_CAT0, C_DEDUP, C_REP_FIN, C_REP_PEND, C_REP_FAIL, C_FAIL_DUP, C_NONE, C_GRID, C_GRID_COLL, C_PBT_DOM, C_PBT_TYPE]
+CLAUSES = [C_KEYS, C_CONST, C_TYPE, C_DOM, C_INIT, C_MID, C_CAT0, C_DEDUP, C_REP_FIN, C_REP_PEND, C_REP_FAIL, C_FAIL_DUP, C_NONE, C_GRID, C_GRID_COLL, C_CRASH, C_CRASH_DEHB, C_PBT_DOM, C_PBT_TYPE]
 
 MAX_VIOL = 5
 RTOL_BOUND = 1e-12
@@ -380,24 +382,31 @@ class _Space:
     def build(self):
         return {k: _build_domain(s, self.E) for k, s in self.specs.items()}
 
-    def finite_all(self):
-        """set of canonical tuples of the whole space, or None (infinite, or finiteness not judged: quantised domains,
-        finite ranges with ambiguous rounding)"""
+    def size(self):
+        """number of configurations, None if infinite or not judged (quantised domains, ambiguous rounding)"""
         per = [self.refs[k].finite() for k in self.hp]
         if any(p is None for p in per):
             return None
-        return set(itertools.product(*per))
+        n = 1
+        for p in per:
+            n *= len(p)
+        return n
+
+    def finite_all(self):
+        """set of canonical tuples of the whole space; None if infinite / not judged / larger than 5000"""
+        if not hasattr(self, "_fa"):
+            n = self.size()
+            self._fa = None if (n is None or n > 5000) else set(itertools.product(*[self.refs[k].finite() for k in self.hp]))
+        return self._fa
 
     def surely_infinite(self):
-        """some hyperparameter is a genuine (not quantised) float interval or an integer range with > 10^4 values"""
+        """some hyperparameter is a genuine (not quantised, not degenerate) float interval"""
         return any((r.fam == "float" and r.q is None and r.lo < r.hi) for r in self.refs.values())
 
     def none_judged(self):
-        return self.finite_all() is not None or self.surely_infinite()
-
-    def size(self):
-        fa = self.finite_all()
-        return None if fa is None else len(fa)
+        """can the reference decide whether the space is used up?  (more than 5000 configurations: never used up within
+        the step bounds of this monitor)"""
+        return self.size() is not None or self.surely_infinite()
 
     def canon(self, cfg):
         return tuple(self.refs[k].canon(cfg[k]) for k in self.hp)
@@ -757,7 +766,7 @@ class _MultiFidAd(_FifoAd):
 # --------------------------------------------------------------------------------------------------------------
 # the generic sequence runner (random / grid / BO / hyperband / DEHB)
 # --------------------------------------------------------------------------------------------------------------
-def _run_sequence(ctx, sc, space, ad, raw_p2e, promise, steps, rng, fates=(0.5, 0.2, 0.3), approx_given=False, grid=None, blocks_failed=False, const_latitude=(), none_judged=True):
+def _run_sequence(ctx, sc, space, ad, raw_p2e, promise, steps, rng, fates=(0.5, 0.2, 0.3), approx_given=False, grid=None, blocks_failed=False, const_latitude=(), none_judged=True, crash_clause=C_CRASH):
     """promise: the searcher promises not to repeat itself.  fates = P(finish), P(fail), P(stay pending)
     grid: None or dict(num_samples=..., colliding=bool) -> end-of-run enumeration clause"""
     ctx.scenario(sc)
@@ -765,6 +774,8 @@ def _run_sequence(ctx, sc, space, ad, raw_p2e, promise, steps, rng, fates=(0.5, 
     expected, raw_dups = _ref_initial(raw_p2e, space)
     finite_all = space.finite_all()
     hist = []  # dicts: cfg, status, id
+    by_key = {}
+    n_status = {"pending": 0, "finished": 0, "failed": 0}
     seen = set()
     nones = 0
     first_none_step = None
@@ -773,7 +784,12 @@ def _run_sequence(ctx, sc, space, ad, raw_p2e, promise, steps, rng, fates=(0.5, 
     if grid is not None and grid.get("colliding"):
         rep_clause = {k: C_GRID_COLL for k in rep_clause}
     for step in range(steps):
-        cfg = ad.suggest(step)
+        try:
+            cfg = ad.suggest(step)
+        except Exception as exc:  # the scheduler / searcher raised instead of answering
+            ctx.check(crash_clause, False, scenario=sc, step=step, raised=repr(exc)[:300], at=_last_frames(exc))
+            break
+        ctx.check(crash_clause, True)
         if cfg is None:
             nones += 1
             in_initial = False
@@ -801,16 +817,15 @@ def _run_sequence(ctx, sc, space, ad, raw_p2e, promise, steps, rng, fates=(0.5, 
                 # initial configuration again
                 twin = [h["id"] for h in hist[: len(expected)] if space.equal(h["cfg"], cfg)]
                 ctx.check(C_DEDUP, not twin, scenario=sc, step=step, config=cfg, equal_to_initial_suggestion=twin)
+            equal_earlier = by_key.get(_key(space, cfg), [])  # exact equality of all hyperparameter values
             if promise:
                 for status, clause in rep_clause.items():
-                    earlier = [h for h in hist if h["status"] == status]
-                    if earlier:
-                        twin = [h["id"] for h in earlier if space.equal(h["cfg"], cfg)]
+                    if n_status[status]:
+                        twin = [h["id"] for h in equal_earlier if h["status"] == status]
                         ctx.check(clause, not twin, scenario=sc, step=step, config=cfg, equal_to_suggestion=twin, status_of_earlier=status)
             elif blocks_failed:
-                earlier = [h for h in hist if h["status"] == "failed"]
-                if earlier:
-                    twin = [h["id"] for h in earlier if space.equal(h["cfg"], cfg)]
+                if n_status["failed"]:
+                    twin = [h["id"] for h in equal_earlier if h["status"] == "failed"]
                     ctx.check(C_FAIL_DUP, not twin, scenario=sc, step=step, config=cfg, equal_to_failed_suggestion=twin)
             try:
                 seen.add(space.canon(cfg))
@@ -818,6 +833,9 @@ def _run_sequence(ctx, sc, space, ad, raw_p2e, promise, steps, rng, fates=(0.5, 
                 pass
         rec = {"cfg": dict(cfg), "status": "pending", "id": step}
         hist.append(rec)
+        n_status["pending"] += 1
+        if ok_keys:
+            by_key.setdefault(_key(space, cfg), []).append(rec)
         # history: fate of the new trial, and of one older pending one
         p_fin, p_fail, p_pend = fates
         if not ad.can_pend:
@@ -836,10 +854,37 @@ def _run_sequence(ctx, sc, space, ad, raw_p2e, promise, steps, rng, fates=(0.5, 
                 ad.finish(h["id"], h["cfg"], float(np.round(rng.uniform(0.0, 1.0), 3)))
             else:
                 ad.fail(h["id"])
+            n_status[h["status"]] -= 1
             h["status"] = kind
+            n_status[kind] += 1
     if grid is not None:
         _check_grid_end(ctx, sc, space, hist, expected, nones, first_none_step, grid)
     return hist, nones
+
+
+def _key(space, cfg):
+    """hashable key; a == b  <=>  key(a) == key(b) for python / numpy numbers and strings"""
+    out = []
+    for k in space.hp:
+        v = cfg[k]
+        if isinstance(v, np.generic):
+            v = v.item()
+        if isinstance(v, float) and v == math.floor(v) and abs(v) < 2**53:
+            v = int(v)
+        if isinstance(v, bool):
+            v = int(v)
+        try:
+            hash(v)
+        except TypeError:
+            v = repr(v)
+        out.append(v)
+    return tuple(out)
+
+
+def _last_frames(exc):
+    import traceback
+
+    return ["%s:%d %s" % (f.filename.split("syne_tune/")[-1], f.lineno, f.name) for f in traceback.extract_tb(exc.__traceback__)[-3:]]
 
 
 def _scenario_rng(master_seed, sc):
@@ -864,14 +909,15 @@ def _check_grid_end(ctx, sc, space, hist, expected, nones, first_none_step, grid
     vals = {k: [] for k in space.hp}
     for c in later:
         for k in space.hp:
-            if not any(_same_val(c[k], v) for v in vals[k]):
+            if len(vals[k]) < 64 and not any(_same_val(c[k], v) for v in vals[k]):
                 vals[k].append(c[k])
     if later:
         prod = [dict(zip(space.hp, t)) for t in itertools.product(*[vals[k] for k in space.hp])]
-        missing = [p for p in prod if not any(space.equal(p, c, tol=RTOL_VAL) for c in cfgs)]
+        have = set(_key(space, c) for c in cfgs)
+        missing = [p for p in prod if _key(space, p) not in have and not any(space.equal(p, c, tol=RTOL_VAL) for c in cfgs)]
         ctx.check(clause, not missing, scenario=sc, note="grid not a complete Cartesian product when 'nothing left' was answered", missing=missing[:3], suggestions=len(cfgs))
         # (d) exactly once: number of grid-phase suggestions
-        init_on_grid = [p for p in prod if any(space.equal(p, c, tol=RTOL_VAL) for c in init)]
+        init_on_grid = [p for p in prod if any(space.equal(p, c, tol=RTOL_VAL) for c in init)] if init else []
         ctx.check(clause, len(later) == len(prod) - len(init_on_grid), scenario=sc, note="number of grid-phase suggestions differs from |grid| - |initial points on the grid|", grid_phase_suggestions=len(later), grid_size=len(prod), initial_on_grid=len(init_on_grid))
     # (c) hyperparameters whose grid is the whole domain
     ns = grid.get("num_samples") or {}
@@ -1025,15 +1071,27 @@ def _fam_random(ctx, E, spaces, rng, n_p2e, lib_seed, via_scheduler):
                 else:
                     s = E.Random(space.build(), metric="loss", points_to_evaluate=_copy_p2e(raw), random_seed=lib_seed, allow_duplicates=allow_dup)
                     ad = _SearcherAd(s)
-                if size is not None:
+                if size is not None and size <= 40:
                     steps = size + len(raw or [1]) + 4 if not allow_dup else min(size + 6, 30)
                 else:
                     steps = len(raw or [1]) + 8
                 _run_sequence(ctx, sc, space, ad, raw, promise=not allow_dup, steps=steps, rng=rng, blocks_failed=allow_dup)
 
 
-def _fam_grid(ctx, E, spaces, rng, n_p2e, lib_seed, via_scheduler, colliding=False):
+def _grid_bound(space):
+    """upper bound on the number of grid points (default 5 samples per float / integer hyperparameter)"""
+    bound = 1
+    for k in space.hp:
+        r = space.refs[k]
+        f = r.finite()
+        bound *= len(r.reals) if r.fam == "fin" else (len(f) if f is not None and r.fam != "int" else 5)
+    return bound
+
+
+def _fam_grid(ctx, E, spaces, rng, n_p2e, lib_seed, via_scheduler, colliding=False, max_grid=250):
     for space in spaces:
+        if _grid_bound(space) > max_grid:
+            continue
         for label, raw in _p2e_variants(space, rng, n_p2e):
             try:
                 _ref_initial(raw, space)
@@ -1057,12 +1115,7 @@ def _fam_grid(ctx, E, spaces, rng, n_p2e, lib_seed, via_scheduler, colliding=Fal
                     else:
                         s = E.Grid(space.build(), metric="loss", points_to_evaluate=_copy_p2e(raw), shuffle_config=shuffle, allow_duplicates=allow_dup, num_samples=None if ns is None else dict(ns), random_seed=lib_seed)
                         ad = _SearcherAd(s)
-                    bound = 1
-                    for k in space.hp:
-                        f = space.refs[k].finite()
-                        r = space.refs[k]
-                        bound *= (len(r.reals) if r.fam == "fin" else (len(f) if f is not None and r.fam != "int" else 5))
-                    steps = bound + len(raw or [1]) + 4
+                    steps = _grid_bound(space) + len(raw or [1]) + 4
                     if allow_dup:
                         _run_sequence(ctx, sc, space, ad, raw, promise=False, steps=min(steps, 25), rng=rng, none_judged=False)
                     else:
@@ -1086,9 +1139,9 @@ def _fam_hyperband(ctx, E, spaces, rng, lib_seed, searchers, types, steps_inf, n
                     sched = E.Hyperband(space.build(), searcher=searcher, metric="loss", mode="min", resource_attr="epoch", max_t=9, grace_period=1, reduction_factor=3, type=tp, points_to_evaluate=_copy_p2e(raw), random_seed=lib_seed, search_options=so)
                     ad = _MultiFidAd(sched, E, max_t=9)
                     if searcher == "grid":
-                        _run_sequence(ctx, sc, space, ad, raw, promise=True, steps=(size or 30) + len(raw or [1]) + 4 if size is not None else 30, rng=rng, none_judged=False)
+                        _run_sequence(ctx, sc, space, ad, raw, promise=True, steps=min(size, 60) + len(raw or [1]) + 4 if size is not None else 30, rng=rng, none_judged=False)
                     else:
-                        to_the_end = size is not None and (searcher == "random" or size <= 8)
+                        to_the_end = size is not None and ((searcher == "random" and size <= 40) or size <= 8)
                         steps = (size + len(raw or [1]) + 3) if to_the_end else steps_inf
                         _run_sequence(ctx, sc, space, ad, raw, promise=True, steps=steps, rng=rng, none_judged=to_the_end or size is None)
 
@@ -1125,7 +1178,10 @@ def _fam_dehb(ctx, E, spaces, rng, lib_seed, steps, n_p2e):
             sc = _scen("dehb[random_encoded]", space, label, raw, {"max_resource_level": 9, "grace_period": 1, "reduction_factor": 3}, lib_seed)
             sched = E.DEHB(space.build(), searcher="random_encoded", search_options={"debug_log": False}, mode="min", metric="loss", max_resource_level=9, grace_period=1, reduction_factor=3, resource_attr="epoch", random_seed=lib_seed, points_to_evaluate=_copy_p2e(raw))
             ad = _MultiFidAd(sched, E, max_t=9, can_pend=False)
-            _run_sequence(ctx, sc, space, ad, raw, promise=True, steps=steps, rng=rng, fates=(0.85, 0.15, 0.0), approx_given=True)
+            # known discrepancy of the unchanged tree (own clause): the imputed default of a nearest-neighbour ordinal
+            # with integer categories is a numpy scalar, which DEHB's encoder rejects
+            nn_int = any(r.fam == "cat" and r.ordkind in ("nn", "nn-log") and len(r.cats) > 1 and isinstance(r.cats[0], int) for r in space.refs.values())
+            _run_sequence(ctx, sc, space, ad, raw, promise=True, steps=steps, rng=rng, fates=(0.85, 0.15, 0.0), approx_given=True, crash_clause=C_CRASH_DEHB if nn_int else C_CRASH)
 
 
 # ---- PBT ------------------------------------------------------------------------------------------------------
@@ -1167,6 +1223,10 @@ def _fam_pbt(ctx, E, rng, lib_seed, rounds, tier):
             for rp in resample:
                 for policy, pop, mode in (("star", 2, "min"), ("chain", 2, "max"), ("random", 4, "min")):
                     raw = [top] if policy != "random" else [top, {}]
+                    try:
+                        _ref_initial(raw, space)
+                    except _Ambiguous:
+                        raw = [top]
                     opts = {"policy": policy, "population_size": pop, "mode": mode, "resample_probability": rp, "perturbation_interval": 1, "quantile_fraction": 0.25 if pop == 4 else 0.5, "top": top_label}
                     sc = _scen("pbt", space, "top=" + top_label, raw, opts, lib_seed)
                     ctx.scenario(sc)
@@ -1177,9 +1237,18 @@ def _fam_pbt(ctx, E, rng, lib_seed, rounds, tier):
                     active = []  # [trial, step]
                     next_id = 0
                     n_new = 0
+                    crashed = False
                     for it in range(rounds):
+                        if crashed:
+                            break
                         while len(active) < pop:
-                            sg = pbt.suggest(next_id)
+                            try:
+                                sg = pbt.suggest(next_id)
+                            except Exception as exc:
+                                ctx.check(C_CRASH, False, scenario=sc, step=next_id, raised=repr(exc)[:300], at=_last_frames(exc))
+                                crashed = True
+                                break
+                            ctx.check(C_CRASH, True)
                             if sg is None:
                                 raise RuntimeError("PBT answered None in an infinite space: %r" % (sc,))
                             cfg = sg.config
@@ -1196,6 +1265,8 @@ def _fam_pbt(ctx, E, rng, lib_seed, rounds, tier):
                             pbt.on_trial_add(t)
                             active.append([t, 0])
                             next_id += 1
+                        if crashed:
+                            break
                         # one report per active trial; the designated winner reports first
                         if policy == "star":
                             order = sorted(active, key=lambda a: a[0].trial_id)
@@ -1259,7 +1330,8 @@ def monitor_suggestions(tier="quick", seed=0):
     _fam_hyperband(ctx, E, tiny + bo_mixed[: (1 if quick else 2)], rng, lib_seed + 6, ("bayesopt", "hypertune") if not quick else ("bayesopt",), ("promotion", "stopping") if not quick else ("promotion",), steps_inf=8 if quick else 10, n_p2e=2 if quick else 4, search_options=mf_opts)
     if quick:
         _fam_hyperband(ctx, E, bo_mixed[:1], rng, lib_seed + 7, ("hypertune",), ("stopping",), steps_inf=7, n_p2e=2, search_options=mf_opts)
-    dehb_spaces = [s for s in bo_mixed[:1] + rnd_mixed[: (4 if quick else 14)] + inf_singles[:: (3 if quick else 1)] if s.surely_infinite()]
+    dehb_nn = [_Space("dehb-nn-int", {"width": ("ordinal", (1, 10, 100), "nn-log"), "x": ("uniform", 0.0, 1.0)}, E)]
+    dehb_spaces = dehb_nn + [s for s in bo_mixed[:1] + rnd_mixed[: (4 if quick else 14)] + inf_singles[:: (3 if quick else 1)] if s.surely_infinite()]
     _fam_dehb(ctx, E, dehb_spaces, rng, lib_seed + 8, steps=30 if quick else 45, n_p2e=3 if quick else 6)
     # PBT
     _fam_pbt(ctx, E, rng, lib_seed + 9, rounds=12 if quick else 40, tier=tier)
